@@ -16,11 +16,14 @@ pub struct GenOpts {
     pub allow_noncanonical: bool,
     /// probability (per mille) of adding an unknown key to an object
     pub extra_key_pm: u32,
+    /// map keys that differ as strings but parse to the same key ("01" / "1", "+3" / "3"): every entry must
+    /// still be examined and reported on; which value wins is only compared where the model says so
+    pub allow_key_alias: bool,
 }
 
 impl Default for GenOpts {
     fn default() -> Self {
-        GenOpts { fault_pm: 80, max_depth: 5, max_len: 3, allow_dup: false, allow_nonfinite: false, allow_noncanonical: false, extra_key_pm: 120 }
+        GenOpts { fault_pm: 80, max_depth: 5, max_len: 3, allow_dup: false, allow_nonfinite: false, allow_noncanonical: false, extra_key_pm: 120, allow_key_alias: false }
     }
 }
 
@@ -32,7 +35,11 @@ pub struct Gen<'a> {
     pub faults: Vec<&'static str>,
 }
 
-const WORDS: &[&str] = &["a", "b", "id", "name", "zed", "é", "日本", "x_y", "Foo", "typo", "kind", "type", "", "longer_word_here", "0", "-1", "true", "null", "a,b", "1,2,3", ",", "12"];
+const WORDS: &[&str] = &[
+    "a", "b", "id", "name", "zed", "é", "日本", "x_y", "Foo", "typo", "kind", "type", "", "longer_word_here", "0", "-1", "true", "null", "a,b", "1,2,3", ",", "12",
+    // strings that need escaping when quoted as JSON text
+    "say \"hi\"", "C:\\temp", "tab\there", "line\nbreak", "back`tick", "nul\u{0}byte", "\u{1F600} emoji",
+];
 
 pub fn one_edit(rng: &mut Rng, s: &str) -> String {
     let cs: Vec<char> = s.chars().collect();
@@ -82,7 +89,14 @@ pub fn typo(rng: &mut Rng, s: &str, edits: usize) -> String {
                 left -= 1;
             }
             2 => {
-                cs[i] = if cs[i] == 'z' { 'y' } else { 'z' };
+                // substitution; a multi-byte letter is replaced by another one with the same UTF-8 lead byte
+                cs[i] = if !cs[i].is_ascii() {
+                    if cs[i] == 'è' { 'ç' } else { 'è' }
+                } else if cs[i] == 'z' {
+                    'y'
+                } else {
+                    'z'
+                };
                 left -= 1;
             }
             3 => {
@@ -414,6 +428,17 @@ impl<'a> Gen<'a> {
                                 m.push((b, v));
                                 continue;
                             }
+                        }
+                    }
+                    if self.opts.allow_key_alias && matches!(k, KeyTy::U8 | KeyTy::I16) && !m.is_empty() && self.rng.chance(1, 4) {
+                        // an alias of an earlier key: same parsed key, different spelling
+                        let base = m[self.rng.below(m.len())].0.clone();
+                        let alias = if base.starts_with('-') { format!("-0{}", &base[1..]) } else if self.rng.chance(1, 2) { format!("0{base}") } else { format!("+{base}") };
+                        if alias.parse::<i32>().is_ok() && !taken.contains(&alias) {
+                            self.tag("aliased-map-key");
+                            let v = self.payload(t, depth + 1);
+                            m.push((alias, v));
+                            continue;
                         }
                     }
                     if let Some(key) = self.key_of(*k, &taken) {
